@@ -37,6 +37,7 @@ def build_tree(base):
         "static/%2e%2e": b"literal percent name", "static/sub/index.html": b"<sub index>", "static/sub/b.txt": b"file b",
         "static/sub/page.html": b"<page>", "static/sub/a.txt": b"sub a", "static/adir.html/inner.txt": b"inner",
         "nosuch.html": b"SIBLING OF A MISSING DIRECTORY", "static/p%20q/index.html": b"<percent dir index>",
+        "static/release-1.2.html": b"<release notes>", "static/sub/v2.0.html": b"<v2.0>", "static/jquery.min.html": b"<odd page>",
     }
     for rel, content in files.items():
         with open(os.path.join(base, rel), "wb") as f:
@@ -235,6 +236,7 @@ def bounded(tier, seed):
         p3 = [p for p in paths(3) if p.count("/") == 3]
         ps += p3 if tier == "thorough" else rng.sample(p3, 400)
         ps += ["/p%20q", "/p%20q/", "/p%20q/index.html", "/p q", "/p q/"]
+        ps += ["/release-1.2", "/release-1.2.html", "/sub/v2.0", "/sub/v2.0.html", "/jquery.min", "/release-1", "/sub/v2"]
         ps += ["/adir", "/adir/", "/adir.html", "/adir.html/", "/adir.html/inner.txt", "/idx", "/idx/", "/idx/index.html", "/idx/index.html/"]
         ps += ["/sub/", "/sub", "/sub/page", "/sub/page.html", "/a.txt/", "/a.txt/x", "/sub/../a.txt", "/sub/../../secret.txt",
                "/../static2/sibling.txt", "//a.txt", "/sub//b.txt", "/./a.txt", "/empty/", "/empty", "/x", "/%2e%2e/secret.txt"]
